@@ -57,6 +57,8 @@ def run(ctx):
     r19_3(ctx, rep, meths)
     r19_4(ctx, rep)
     r19_5(ctx, rep, roles, meths)
+    from .. import wrappers
+    wrappers.transient_errors(ctx, rep, roles, "C19", "R19.6")
 
 
 def call_names(row):
